@@ -61,7 +61,7 @@ def shard_setup(obs) -> None:
 
 
 def gen_cases(tier: str, seed: int):
-    n = {"quick": 300, "thorough": 4000}[tier]
+    n = {"quick": 300, "thorough": 40000}[tier]
     rng = np.random.default_rng([seed, 8])
     for k in zoo.SYSTEMS:
         for mk in (zoo.CONST_METRICS if k in zoo.TRACTABLE else ("-",)):
